@@ -11,6 +11,7 @@ package sym
 import (
 	"encoding/json"
 	"fmt"
+	"os"
 	"runtime"
 	"strings"
 	"time"
@@ -155,6 +156,9 @@ func Assume(c bool) {
 
 // Assert states a property; label identifies the assertion.
 func Assert(c bool, property, label string) {
+	if t := os.Getenv("VERIF_TWIN"); t != "" && t == label {
+		c = false // reachability twin (self-test)
+	}
 	res.Reached = append(res.Reached, label)
 	if !c {
 		res.FailedLabels = append(res.FailedLabels, label)
